@@ -33,6 +33,32 @@ different lengths. -/
 theorem eq_refl (g : Grid) (h : g.coords.WF) : g.eq g = true :=
   (Grid.eq_iff h).mpr ⟨rfl, rfl⟩
 
+/-- **Reflexivity holds exactly for the grids without NaN**: with IEEE comparison (`np.array_equal`
+without `equal_nan`) a grid one of whose coordinates is NaN is *not* equal to itself (nor to its copy),
+although it can be hashed and its copy has the same hash.  This is the behaviour of the code (tied:
+driver op `eqnan` against `==` on real grids with NaN coordinates); `eq_refl` and all statements below
+are about grids with finite coordinates. -/
+theorem eq_refl_iff_no_nan (g : Grid) (h : g.coords.WF) (nan : Bool) : g.eqNaN g nan nan = true ↔ nan = false := by
+  simp [Grid.eqNaN, (Grid.eq_iff h).mpr ⟨rfl, rfl⟩]
+
+/-- … NaN on either side makes `==` false; without NaN it is `Grid.eq`; symmetric in any case. -/
+theorem eqNaN_spec (a b : Grid) (na nb : Bool) :
+    (na = true ∨ nb = true → a.eqNaN b na nb = false) ∧ a.eqNaN b false false = a.eq b ∧
+      a.eqNaN b na nb = b.eqNaN a nb na := by
+  refine ⟨?_, by simp [Grid.eqNaN], ?_⟩
+  · rintro (h | h) <;> simp [Grid.eqNaN, h]
+  · have hs : a.eq b = b.eq a := by
+      rw [Bool.eq_iff_iff]
+      constructor
+      · intro h
+        obtain ⟨h1, h2⟩ := Grid.eq_true_imp h
+        simpa [Grid.eq, h1, h2] using h
+      · intro h
+        obtain ⟨h1, h2⟩ := Grid.eq_true_imp h
+        simpa [Grid.eq, h1, h2] using h
+    simp only [Grid.eqNaN, hs]
+    cases na <;> cases nb <;> simp
+
 /-- **Symmetry** (no hypothesis). -/
 theorem eq_symm (a b : Grid) : a.eq b = b.eq a := by
   rw [Bool.eq_iff_iff]
